@@ -83,6 +83,26 @@ theorem C01_observables_parsed (idna : Idna) (h : IdnaOk idna) (hs : IdnaStable 
   exact ⟨u', hu', ⟨a, b, c, d, e', f, g, i, j, k⟩, ho w1 w2⟩
 
 example : (∃ b, (some c02Full : Option Url) = some b ∧ Impl.Canon b = true) := ⟨c02Full, rfl, by decide⟩
+
+/-- **C05, equality and hash**: `operator==` compares the stored serializations and `std::hash<url>` hashes it
+    (url.h: `norm_url_`); on URLs in normal form the serializer is INJECTIVE, so two valid objects compare equal
+    (and hash equally) exactly when their records — every component, every null / empty status, host type, path
+    kind — are equal.  (Corollary of C02: a normal-form URL is recovered from its href by the parser.) -/
+theorem C05_eq_iff_record (idna : Idna) (u v : Url) (hu : Norm idna u) (hv : Norm idna v) :
+    Impl.serialize u = Impl.serialize v ↔ u = v := by
+  constructor
+  · intro h
+    have a := C02_reparse idna u hu none (.inl rfl)
+    have b := C02_reparse idna v hv none (.inl rfl)
+    rw [h] at a
+    exact Option.some.inj (a.symm.trans b)
+  · intro h; rw [h]
+
+/-- the same over stored representations: two representations of normal-form records have equal strings (what
+    `operator==` and `std::hash` read) exactly when they represent the same record -/
+theorem C05_eq_iff_record_rep (idna : Idna) (u v : Url) (hu : Norm idna u) (hv : Norm idna v) :
+    (Impl.layout u).norm = (Impl.layout v).norm ↔ u = v := by
+  rw [C05_layout_href, C05_layout_href]; exact C05_eq_iff_record idna u v hu hv
 example : Spec.getHref c02Full = asciiStr "https://user:pw@example.org:8080/a/b?q=1#frag" ∧
     Spec.getHost c02Full = asciiStr "example.org:8080" ∧ Spec.getSearch c02Full = asciiStr "?q=1" ∧
     Spec.getOrigin sampleIdna c02Full = asciiStr "https://example.org:8080" := by decide +kernel
@@ -543,3 +563,5 @@ example : ¬ UnitsOk .u8 (asciiStr "a:/" ++ [0xC2, 0x1A0]) ∧
 #print axioms C09_agree_spec
 end Upa.Props
 #print axioms Upa.Props.C01_observables_parsed
+#print axioms Upa.Props.C05_eq_iff_record
+#print axioms Upa.Props.C05_eq_iff_record_rep
